@@ -89,16 +89,30 @@ def tie_check(prop, units):
         return {"theorems": [], "ok": [], "lost": []}
     mods = sorted(set(m for m, _, _ in entries))
     built = {}
+    ok_all, _ = lake_build(mods, timeout=1500)
     for m in mods:
+        if ok_all:
+            built[m] = True
+            continue
         okb, outb = lake_build([m], timeout=1500)
         built[m] = okb
         if not okb:
             with open(os.path.join(WORK, "%s-tie-%s.log" % (prop, m.split(".")[-1])), "w") as f:
                 f.write(outb)
-    good = [(m, t) for m, t, _ in entries if built[m]]
+    # one audit file per tie module: the modules' helper-lemma files are independent of each other and may not be
+    # importable together
     aud = {}
-    if good:
-        aud, _ = audit(prop + "-tie", good)
+    jobs = []
+    for m in mods:
+        good = [(m2, t) for m2, t, _ in entries if m2 == m and built[m]]
+        if good:
+            jobs.append(("%s-tie-%s" % (prop, m.split(".")[-1]), good))
+    if jobs:
+        from concurrent.futures import ThreadPoolExecutor
+        with Lock("lean"):
+            with ThreadPoolExecutor(max_workers=8) as ex:
+                for a, _ in ex.map(lambda j: audit(j[0], j[1], locked=False), jobs):
+                    aud.update(a)
     ok, lost = [], []
     for m, t, u in entries:
         if u in units and not units[u][0]:
@@ -143,7 +157,7 @@ def source_scan():
     return hits
 
 
-def audit(prop, theorems):
+def audit(prop, theorems, locked=True):
     """run `#print axioms` for every property theorem; returns dict name -> (ok, axioms or error)"""
     os.makedirs(os.path.join(WORK, prop), exist_ok=True)
     path = os.path.join(WORK, prop, "Audit.lean")
@@ -153,7 +167,10 @@ def audit(prop, theorems):
             f.write("import %s\n" % m)
         for _, t in theorems:
             f.write("#print axioms %s\n" % t)
-    with Lock("lean"):
+    if locked:
+        with Lock("lean"):
+            p = subprocess.run(["lake", "env", "lean", path], cwd=LEAN, capture_output=True, text=True, env=ENV, timeout=1200)
+    else:
         p = subprocess.run(["lake", "env", "lean", path], cwd=LEAN, capture_output=True, text=True, env=ENV, timeout=1200)
     out = p.stdout + p.stderr
     res = {}
